@@ -44,8 +44,8 @@ TEXT = {
   "technique": "Lean 4 reference model + exact correspondence of dumps before/after each operation",
  },
  "C07": {
-  "level": "proof (partial): a decidable checker checkWto (each reachable node exactly once, proper nesting, every edge forward or into the head of an enclosing component, nesting table = enclosing heads outermost first) is proved sound AND complete w.r.t. the declarative WtoWF in Lean for all graphs/orderings (C07.checkWto_sound/_complete, nesting_spec), and proved to imply the well-formedness assumed by the fixpoint soundness theorem (C07.checkWto_implies_fix_wtowf). On every run the checker is evaluated on the ordering and nesting table the REAL wto<cfg> computes for >2*10^4 generated graphs, and the result is compared with the Lean transcription of the iterative algorithm. The unbounded theorem that the algorithm's output always passes the checker (build_wf) is not proved yet",
-  "note": "trusted: Lean kernel; harness prints successor lists in the cfg's own enumeration order; call graphs not driven",
+  "level": "proof: a decidable checker checkWto (each reachable node exactly once, proper nesting, every edge forward or into the head of an enclosing component, nesting table = enclosing heads outermost first) is proved sound AND complete w.r.t. the declarative WtoWF in Lean for all graphs/orderings (C07.checkWto_sound/_complete, nesting_spec), and proved to imply the well-formedness assumed by the fixpoint soundness theorem (C07.checkWto_implies_fix_wtowf). On every run the checker is evaluated on the ordering and nesting table the REAL wto<cfg> computes for >2*10^4 generated graphs, and the result is compared with the Lean transcription of the iterative algorithm. The unbounded theorem is proved too: C07.build_wf — the Lean transcription of the iterative Bourdoncle algorithm terminates within its fuel, never pops an empty stack and returns a well-formed ordering with the right nesting table for every graph and entry (Tarjan-style invariant over the explicit stacks, ~3000 lines), and C07.build_fix_wtowf feeds it into the fixpoint soundness theorem",
+  "note": "trusted: Lean kernel; model = code by exact comparison of ordering and nesting table on every generated graph (CFG and call-graph instances); successor order read back from the graph",
   "technique": "Lean 4 proved checker (sound+complete) evaluated on the implementation's output + exact correspondence with a model of the algorithm",
  },
  "C20": {
